@@ -2,6 +2,7 @@ package mon
 
 import (
 	"crypto/rsa"
+	"encoding/json"
 	"fmt"
 	"net/url"
 	"strings"
@@ -240,6 +241,113 @@ func c15seq(c *run.Ctx) {
 		c15Bearer(c, w, round)
 	}
 	c.Sample(map[string]interface{}{"client_assertion_mutations": len(caMuts), "rounds": rounds})
+	c15JWKSURI(c)
+}
+
+// c15JWKSURI: clients that publish their keys at a jwks_uri, verified through fosite's shipped JWKS fetcher (with its cache)
+// over a stub transport. A client assertion is accepted only if signed by a key of the client it names, also when another
+// client's key set sits at a look-alike location or was fetched first, and not by a key the client has retired once the server
+// has seen the new key set.
+func c15JWKSURI(c *run.Ctx) {
+	if !c.Mine(2) && c.NShards > 2 {
+		return
+	}
+	keys := world.GetKeys()
+	locs := [][2]string{
+		{"https://keys.example/jwks.json?tenant=a", "https://keys.example/jwks.json?tenant=b"},
+		{"https://keys.example/a/jwks.json", "https://keys.example/b/jwks.json"},
+		{"https://keys.example/jwks.json", "https://keys.example/jwks.json#b"},
+		{"https://keys.example/jwks.json?tenant=a&v=1", "https://keys.example/jwks.json?v=1&tenant=b"},
+		{"https://keys.example:443/jwks.json", "https://keys.example:8443/jwks.json"},
+	}
+	for li, lp := range locs {
+		for order := 0; order < 2; order++ {
+			w := world.New(world.Opts{RealJWKS: true})
+			for i, id := range []string{"ten-a", "ten-b"} {
+				w.AddClient(world.ClientSpec{ID: id, Kind: "oidc", AuthMethod: "private_key_jwt", AuthSigAlg: "RS256", JWKSURI: lp[i], RedirectURIs: []string{"https://ten.example/cb"},
+					GrantTypes: world.AllGrants, ResponseTypes: world.AllResponseTypes, Scopes: []string{"fosite"}})
+			}
+			set := func(pub interface{}, kid string) string {
+				b, _ := json.Marshal(&jose.JSONWebKeySet{Keys: []jose.JSONWebKey{{Key: pub, KeyID: kid, Algorithm: "RS256", Use: "sig"}}})
+				return string(b)
+			}
+			served := map[string]string{}
+			strip := func(u string) string {
+				if i := strings.Index(u, "#"); i >= 0 {
+					return u[:i] // a fragment is never sent to the origin server
+				}
+				return u
+			}
+			served[strip(lp[0])] = set(&keys.ClientRSA[0].PublicKey, "k")
+			sameOrigin := strip(lp[0]) == strip(lp[1])
+			if !sameOrigin {
+				served[strip(lp[1])] = set(&keys.ClientRSA[1].PublicKey, "k")
+			}
+			fetches := 0
+			w.Fetch = func(u string) (int, string) {
+				fetches++
+				if b, ok := served[strip(u)]; ok {
+					return 200, b
+				}
+				return 404, "not found"
+			}
+			var hist []string
+			try := func(what, client string, key interface{}, kid string, must int) bool {
+				h := map[string]interface{}{}
+				if kid != "" {
+					h["kid"] = kid
+				}
+				now := time.Now()
+				as := world.SignJWT(key, "RS256", h, map[string]interface{}{"iss": client, "sub": client, "aud": world.TokenURL, "exp": now.Add(time.Hour).Unix(), "iat": now.Unix(), "jti": nextJTI("ju")})
+				out := w.Token(url.Values{"grant_type": {"client_credentials"}, "scope": {"fosite"}}, world.Auth{Mode: "none", Assertion: as})
+				w.JWKSSettle()
+				ok := out.Err == nil
+				hist = append(hist, fmt.Sprintf("%s => accepted=%v %s (fetches so far %d)", what, ok, out.ErrName, fetches))
+				c.Case(fmt.Sprintf("jwks-uri locations=%d step=%q accepted=%v", li, what, ok))
+				c.Count("c15_jwks_uri_steps", 1)
+				if must == 0 {
+					c.Count("c15_invalid_rejected", 1)
+					if ok {
+						c.Violate(run.Violation{Kind: "assertion-accepted", Key: "assertion-accepted jwks-uri: " + what, Detail: fmt.Sprintf("jwks_uri of ten-a %q, of ten-b %q", lp[0], lp[1]), History: append([]string(nil), hist...)})
+					}
+				} else if must == 1 && !ok {
+					c.Count("c15_jwks_uri_rightful_refused", 1)
+				} else if must == 1 {
+					c.Count("c15_valid_accepted", 1)
+				}
+				return ok
+			}
+			ka, kb := keys.ClientRSA[0], keys.ClientRSA[1]
+			if sameOrigin {
+				// both clients publish the very same document: nothing distinguishes their keys
+				kb = ka
+			}
+			first, second, kf, ks := "ten-a", "ten-b", ka, kb
+			if order == 1 {
+				first, second, kf, ks = "ten-b", "ten-a", kb, ka
+			}
+			try(first+" authenticates with its own key", first, kf, "k", 1)
+			if !sameOrigin {
+				try("assertion naming "+second+" signed with the key of "+first, second, kf, "k", 0)
+				try("assertion naming "+second+" signed with the key of "+first+", no kid", second, kf, "", 0)
+			}
+			try(second+" authenticates with its own key", second, ks, "k", 1)
+			if !sameOrigin {
+				try("assertion naming "+first+" signed with the key of "+second, first, ks, "k", 0)
+				try("assertion naming "+first+" signed with the key of "+second+", no kid", first, ks, "", 0)
+				// ten-a rotates to a third key under a new kid
+				served[strip(lp[0])] = set(&keys.ClientRSA[2].PublicKey, "k-next")
+				if try("ten-a authenticates with its new key after rotation", "ten-a", keys.ClientRSA[2], "k-next", 1) {
+					try("after the server has seen the rotation: assertion of ten-a signed with the retired key", "ten-a", ka, "k", 0)
+					try("after the server has seen the rotation: assertion of ten-a signed with the retired key, no kid", "ten-a", ka, "", 0)
+					try("ten-b still authenticates with its own key", "ten-b", kb, "k", 1)
+				}
+			}
+			if li == 0 && order == 0 {
+				c.Sample(map[string]interface{}{"jwks_uri_history": hist})
+			}
+		}
+	}
 }
 
 func c15Bearer(c *run.Ctx, w0 *world.World, round int) {
